@@ -12,7 +12,8 @@ enum { T_EXACT, T_FALLBACK_LSB, T_FALLBACK_BANK0, T_SILENT, T_PERC, T_NT };
 static const std::vector<std::string> TAGS = {"exact_entry_played", "fallback_lsb_cleared", "fallback_bank0", "all_blank_rejected", "percussion_path"};
 
 struct BankDef { bool perc; int msb, lsb; };   // bank number in the map = msb*256+lsb (+Perc)
-static const BankDef BANKS[7] = { {false, 0, 0}, {false, 0, 1}, {false, 1, 0}, {false, 1, 1}, {true, 0, 0}, {true, 0, 5}, {true, 1, 5 /* 128+5 = 133 = msb 1 lsb 5 */} };
+static const int NB = 8;
+static const BankDef BANKS[8] = { {false, 0, 0}, {false, 0, 1}, {false, 1, 0}, {false, 1, 1}, {true, 0, 0}, {true, 0, 5}, {true, 1, 5 /* SFX kit 5: map key 133 */}, {true, 1, 0 /* SFX kit 0: map key 128 */} };
 // percussion bank numbers: program p -> bank p (lsb p); SFX (XG MSB 126): 128+p -> msb 1, lsb p
 static int bank_number(int b) { return BANKS[b].msb * 256 + BANKS[b].lsb; }   // without the percussion tag; note 128+5 = 133 = msb 1? no: see below
 // The map key is (msb << 8) | lsb where lsb is 7-bit; bank number 133 cannot be written as msb*256+lsb with lsb<128.
@@ -37,7 +38,7 @@ static OPN2_Instrument api_ins(int id, int drum_key) {
     for(int op = 0; op < 4; op++) { i.operators[op].dtfm_30 = 1; i.operators[op].level_40 = 10; i.operators[op].rsatk_50 = 0x1F; i.operators[op].amdecay1_60 = (OPN2_UInt8)(id & 0x1F); i.operators[op].decay2_70 = 0; i.operators[op].susrel_80 = 0x0F; }
     i.delay_on_ms = 500; i.delay_off_ms = 100; return i;
 }
-static int drum_key_of(int bank, int entry) { return (bank == 5 && entry == 1) ? 50 : (bank == 4 && entry == 0) ? 0 : 40 + bank; }   // one entry without a drum key: pitch = MIDI key
+static int drum_key_of(int bank, int entry) { return (bank == 5 && entry == 1) ? 50 : (bank == 4 && entry == 0) ? 0 : 40 + bank; }   // ids: bank 7 -> 15/16   // one entry without a drum key: pitch = MIDI key
 
 static std::vector<uint8_t> g_base;
 static std::map<int, std::pair<int, int>> g_pitch;   // tone -> (A4, A0) on the OPN2 family, from a reference run
@@ -48,16 +49,17 @@ static bool build(Inst &X, const Layout &L) {
     X.I.create(44100); OPN2_MIDIPlayer *d = X.I.dev;
     opn2_setNumChips(d, 1);
     if(opn2_openBankData(d, g_base.data(), (long)g_base.size()) != 0) return false;
-    for(int b = 0; b < 7; b++) {
+    for(int b = 0; b < NB; b++) {
         if(!(L.present & (1u << b))) continue;
         OPN2_BankId id; id.percussive = BANKS[b].perc; id.msb = (OPN2_UInt8)BANKS[b].msb; id.lsb = (OPN2_UInt8)BANKS[b].lsb;
         if(b == 6) { id.msb = 0; id.lsb = 128 + 5 > 127 ? 0 : 0; }
         OPN2_Bank bk;
-        if(b == 6) {
-            // SFX kit 5 lives under map key Perc+133, which opn2_getBank cannot address (lsb <= 127): insert directly
+        if(b >= 6) {
+            // SFX kits live under map keys Perc+128.., which opn2_getBank cannot address (lsb <= 127): insert directly
+            size_t key = (size_t)(OPN2::PercussionTag + (b == 6 ? 133 : 128));
             OPN2::Bank nb; memset(&nb, 0, sizeof nb); for(int i = 0; i < 128; i++) nb.ins[i].flags = OpnInstMeta::Flag_NoSound;
-            X.I.synth().m_insBanks.insert(std::make_pair((size_t)(OPN2::PercussionTag + 133), nb));
-            OPN2::BankMap::iterator it = X.I.synth().m_insBanks.find((size_t)(OPN2::PercussionTag + 133)); it.to_ptrs(bk.pointer);
+            X.I.synth().m_insBanks.insert(std::make_pair(key, nb));
+            OPN2::BankMap::iterator it = X.I.synth().m_insBanks.find(key); it.to_ptrs(bk.pointer);
         } else if(opn2_getBank(d, &id, OPNMIDI_Bank_Create, &bk) != 0) return false;
         for(int e = 0; e < 2; e++) {
             bool blank = e == 1 ? (L.blankA >> b) & 1 : (L.blankB >> b) & 1;
@@ -82,7 +84,7 @@ static int resolve(const Layout &L, const Hist &h, bool &perc_out, int &tone, ui
     if(!perc) B = (h.msb == 0 && h.lsb == 0) ? 0 : (long)h.msb * 256 + (gs ? 0 : h.lsb);
     else B = h.program + ((xg && h.msb == 126) ? 128 : 0);
     (void)entry_idx;
-    auto find_bank = [&](long num, bool pc) -> int { for(int b = 0; b < 7; b++) { if(!(L.present & (1u << b)) || BANKS[b].perc != pc) continue; long bn = b == 6 ? 133 : bank_number(b); if(bn == num) return b; } return -1; };
+    auto find_bank = [&](long num, bool pc) -> int { for(int b = 0; b < NB; b++) { if(!(L.present & (1u << b)) || BANKS[b].perc != pc) continue; long bn = b == 6 ? 133 : b == 7 ? 128 : bank_number(b); if(bn == num) return b; } return -1; };
     auto nonblank = [&](int b) { if(b < 0 || e < 0) return false; return !(e == 1 ? (L.blankA >> b) & 1 : (L.blankB >> b) & 1); };
     long cand[3] = {B, B & ~0x7FL, 0};
     for(int k = 0; k < 3; k++) {
@@ -114,7 +116,7 @@ static std::string hist_str(const Hist &h) {
     char b[200]; snprintf(b, sizeof b, "mode %s%s, channel %d, bank %d/%d via %s, program %d (%s), key %d", M[h.mode], h.drumpart ? " + GS drum part" : "", h.ch, h.msb, h.lsb, P[h.path], h.program, h.order ? "program before bank" : "bank before program", h.key);
     return b;
 }
-static std::string layout_str(const Layout &L) { std::string r = "banks:"; for(int b = 0; b < 7; b++) if(L.present & (1u << b)) { char t[64]; snprintf(t, sizeof t, " %s%d%s%s", BANKS[b].perc ? "P" : "M", b == 6 ? 133 : bank_number(b), (L.blankA >> b) & 1 ? "[A blank]" : "", (L.blankB >> b) & 1 ? "[B blank]" : ""); r += t; } return r; }
+static std::string layout_str(const Layout &L) { std::string r = "banks:"; for(int b = 0; b < NB; b++) if(L.present & (1u << b)) { char t[64]; snprintf(t, sizeof t, " %s%d%s%s", BANKS[b].perc ? "P" : "M", b == 6 ? 133 : b == 7 ? 128 : bank_number(b), (L.blankA >> b) & 1 ? "[A blank]" : "", (L.blankB >> b) & 1 ? "[B blank]" : ""); r += t; } return r; }
 
 static void check_note(Inst &X, const Layout &L, const Hist &h, en::CaseOut &o) {
     OPN2_MIDIPlayer *d = X.I.dev;
@@ -165,15 +167,16 @@ int main(int argc, char **argv) {
     static std::vector<Hist> HS; HS = hs;
     std::vector<en::Family> fams;
     { unsigned nblank = thorough ? 128 : 128; (void)nblank;
-      en::Family F; F.name = "layouts_x_histories"; F.count = (uint64_t)64 * 128 * (thorough ? 4 : 2); F.chunk = 8; F.budget_s = 60; F.describe = "every subset of the 6 optional banks {melodic 0/1, 1/0, 1/1; percussion 0, 5, SFX 133} next to melodic 0/0 x every blank pattern of the entry program 5 / key 35 over the 7 banks x blank pattern of entry program 0 / key 60 in {none, bank 0/0 and percussion 0" + std::string(thorough ? ", all, alternating" : "") + "}; on each layout all " + std::to_string(hs.size()) + " histories: mode GM/GS/XG (+GS drum part) x channel x MSB/LSB x program x key x bank-select path {CC0/CC32, rt_bankChangeMSB/LSB, rt_bankChange} x order";
-      F.run = [](uint64_t i, en::CaseOut &o) { Layout L; L.present = 1u | ((unsigned)(i % 64) << 1); L.blankA = (unsigned)((i / 64) % 128); unsigned bsel = (unsigned)(i / 64 / 128); L.blankB = bsel == 0 ? 0 : bsel == 1 ? 0x11 : bsel == 2 ? 0x7F : 0x2A;
+      en::Family F; F.name = "layouts_x_histories"; F.count = (uint64_t)128 * 256 * (thorough ? 4 : 2); F.chunk = 8; F.budget_s = 60; F.describe = "every subset of the 7 optional banks {melodic 0/1, 1/0, 1/1; percussion 0, 5, SFX 133, SFX 128} next to melodic 0/0 x every blank pattern of the entry program 5 / key 35 over the present banks x blank pattern of entry program 0 / key 60 in {none, bank 0/0 and percussion 0" + std::string(thorough ? ", all, alternating" : "") + "}; on each layout all " + std::to_string(hs.size()) + " histories: mode GM/GS/XG (+GS drum part) x channel x MSB/LSB x program x key x bank-select path {CC0/CC32, rt_bankChangeMSB/LSB, rt_bankChange} x order";
+      F.run = [](uint64_t i, en::CaseOut &o) { Layout L; L.present = 1u | ((unsigned)(i % 128) << 1); L.blankA = (unsigned)((i / 128) % 256); unsigned bsel = (unsigned)(i / 128 / 256); L.blankB = bsel == 0 ? 0 : bsel == 1 ? 0x11 : bsel == 2 ? 0xFF : 0xAA;
+        if(L.blankA & ~L.present) { o.skip = true; return; }   // blank bits of absent banks denote the same layout
         Inst X; if(!build(X, L)) { o.fail("C12/harness-build", "could not build the layout through the bank API"); return; }
         if(i % 1009 == 0) o.sample = layout_str(L) + " x " + std::to_string(HS.size()) + " histories, e.g. " + hist_str(HS[i % HS.size()]);
         for(auto &h : HS) { check_note(X, L, h, o); if(o.bad) return; }
         o.units = HS.size(); o.nontrivial = true; };
       fams.push_back(F); }
-    { en::Family F; F.name = "replaced_instrument"; F.count = 7 * 2 * 3; F.chunk = 4; F.budget_s = 30; F.describe = "an entry replaced through opn2_setInstrument (each of the 7 banks x 2 entries x {before any note, after playing the old one, while the old one sounds}) is the one played next";
-      F.run = [](uint64_t i, en::CaseOut &o) { int b = (int)(i % 7), e = (int)((i / 7) % 2), when = (int)(i / 14); Layout L; L.present = 0x7F; L.blankA = 0; L.blankB = 0; Inst X; if(!build(X, L)) { o.fail("C12/harness-build", "build"); return; }
+    { en::Family F; F.name = "replaced_instrument"; F.count = 7 * 2 * 3; F.chunk = 4; F.budget_s = 30; F.describe = "an entry replaced through opn2_setInstrument (each of the first 7 banks x 2 entries x {before any note, after playing the old one, while the old one sounds}) is the one played next";
+      F.run = [](uint64_t i, en::CaseOut &o) { int b = (int)(i % 7), e = (int)((i / 7) % 2), when = (int)(i / 14); Layout L; L.present = 0xFF; L.blankA = 0; L.blankB = 0; Inst X; if(!build(X, L)) { o.fail("C12/harness-build", "build"); return; }
         OPN2_MIDIPlayer *d = X.I.dev; Hist h; h.mode = 2; h.drumpart = false; h.path = 0; h.order = 0;
         if(BANKS[b].perc) { h.ch = 9; h.msb = b == 6 ? 126 : 0; h.lsb = 0; h.program = b == 4 ? 0 : 5; h.key = e ? 35 : 60; if(b == 6) { h.ch = 2; } } else { h.ch = 0; h.msb = BANKS[b].msb; h.lsb = BANKS[b].lsb; h.program = e ? 5 : 0; h.key = 60; }
         apply_history(X.I, h);
